@@ -1,6 +1,7 @@
 package main
 
 import (
+	"encoding/base64"
 	"encoding/json"
 	"fmt"
 	"net"
@@ -197,7 +198,7 @@ func lengthSweep(prop string, args []string) int {
 			}
 		}
 		ks := "K" + string(key) // never collides with the fixed names below
-		l.Log().Str(ks, string(val)).Bytes("bytes", val).Hex("hex", val).Ints("ints", ints).Bools("bools", bools).Strs("strs", strs).Msg(string(val))
+		l.Log().Str(ks, string(val)).Bytes("bytes", val).Hex("hex", val).RawCBOR("cbor", val).Ints("ints", ints).Bools("bools", bools).Strs("strs", strs).Msg(string(val))
 		cnt++
 		if prop == "C09" {
 			c09lenCheck(out, w.b, n, ks, val, ints, bools, strs)
@@ -223,6 +224,9 @@ func lengthSweep(prop string, args []string) int {
 		}
 		if s, ok := m["bytes"].(string); !ok || s != string(val) {
 			bad("length:bytes", fmt.Sprintf("Bytes of %d bytes decodes to %d bytes", n, len(s)))
+		}
+		if s, ok := m["cbor"].(string); !ok || s != "data:application/cbor;base64,"+base64.StdEncoding.EncodeToString(val) {
+			bad("length:rawcbor", fmt.Sprintf("RawCBOR of %d bytes is not the data URL of its standard base64 text (%d characters)", n, len(s)))
 		}
 		if s, ok := m["hex"].(string); !ok || s != fmt.Sprintf("%x", val) {
 			bad("length:hex", fmt.Sprintf("Hex of %d bytes decodes to %d characters", n, len(s)))
